@@ -46,6 +46,7 @@ import (
 	"strconv"
 	"strings"
 	"sync"
+	"syscall"
 	"time"
 
 	"github.com/notaryproject/notation-go/dir"
@@ -747,6 +748,19 @@ func behave(mgr *plugin.CLIManager, res *result) (class, kind string) {
 		return "unavailable", "get-error"
 	}
 	md, err := p.GetMetadata(ctx, &pfw.GetMetadataRequest{})
+	// A plugin that answers may fail to be RUN on a starved machine (fork failing with EAGAIN / ENOMEM, the library's
+	// pipe wait expiring). That is the machine, not the tree: ask again before calling the plugin unavailable.
+	starved := func(err error) bool {
+		if errors.Is(err, exec.ErrWaitDelay) || errors.Is(err, syscall.EAGAIN) || errors.Is(err, syscall.ENOMEM) || errors.Is(err, syscall.EMFILE) || errors.Is(err, syscall.ENFILE) {
+			return true
+		}
+		m := err.Error()
+		return strings.Contains(m, "resource temporarily unavailable") || strings.Contains(m, "cannot allocate memory") || strings.Contains(m, "too many open files")
+	}
+	for try := 0; err != nil && try < 4 && starved(err); try++ {
+		time.Sleep(time.Duration(200*(try+1)) * time.Millisecond)
+		md, err = p.GetMetadata(ctx, &pfw.GetMetadataRequest{})
+	}
 	if err != nil {
 		return "unavailable", "metadata-error"
 	}
